@@ -212,9 +212,9 @@ def make_page_decoder(carry, kinds, n_total, record=True, flavour=("toy", BEAM))
     if record:
         real_decode_line = pd.decode_line
 
-        def decode_line(line):
+        def decode_line(line, *args, **kwargs):       # whatever further arguments process_page hands to it
             rec.current_line = int(line.id)
-            return real_decode_line(line)
+            return real_decode_line(line, *args, **kwargs)
         pd.decode_line = decode_line
     return pd, rec
 
